@@ -498,6 +498,31 @@ fn prepared_twice(ctx: &Ctx) -> u64 {
     n
 }
 
+/// The largest bounds: a short chain is followed under max_redirections(u32::MAX) and (u32::MAX - 1).
+fn extreme_bounds(ctx: &Ctx) -> u64 {
+    let mut n = 0;
+    let menu = response_menu();
+    let redirect = menu.iter().find(|r| r.status == 302 && r.location.as_deref() == Some("/abs/path")).unwrap().clone();
+    for max in [u32::MAX, u32::MAX - 1, u32::MAX / 2 + 1, 1 << 16] {
+        for hops in [1usize, 3] {
+            n += 1;
+            let mut chain = vec![redirect.clone(); hops];
+            chain.push(menu[0].clone());
+            let (h, f) = run_chain(&chain, || attohttpc::get("http://a.test/s").max_redirections(max).send());
+            let ok = h.len() == hops + 1 && matches!(&f, Final::Ok { status: 200, .. });
+            if !ok {
+                ctx.violation(
+                    "C09:request-count".to_string(),
+                    format!("max_redirections({max}) and a chain of {hops} redirect(s): {} request(s) were sent, outcome {f:?}", h.len()),
+                    json!({"engine": "c09", "extreme_bounds": true}),
+                    n,
+                );
+            }
+        }
+    }
+    n
+}
+
 pub fn c09(ctx: &Ctx) -> Report {
     let starts: Vec<&str> = match ctx.tier {
         Tier::Quick => vec!["http://a.test/d1/d2/f?x=1", "http://a.test"],
@@ -520,6 +545,8 @@ pub fn c09(ctx: &Ctx) -> Report {
     }
     let n_non_http = non_http_locations(ctx);
     ctx.count("non_http_location_cases", n_non_http);
+    let n_extreme = extreme_bounds(ctx);
+    ex += n_extreme;
     let n_twice = prepared_twice(ctx);
     ctx.count("prepared_request_sent_twice_cases", n_twice);
     ex += 2 * n_twice;
@@ -550,9 +577,10 @@ pub fn replay09(v: &serde_json::Value) -> i32 {
         non_http_locations(&ctx);
         return if ctx.n_violation_classes() > 0 { 1 } else { 0 };
     }
-    if v["case"]["prepared_twice"] == true {
+    if v["case"]["prepared_twice"] == true || v["case"]["extreme_bounds"] == true {
         let ctx = Ctx::new("C09", Tier::Quick);
         prepared_twice(&ctx);
+        extreme_bounds(&ctx);
         let vs = ctx.drain_violations();
         for (v, n) in &vs {
             println!("{}: {} ({n} cases)", v.signature, v.what);
@@ -619,9 +647,11 @@ pub enum Change {
     WithUserinfo,
     /// a relative reference ending in a fragment (which is never sent)
     WithFragment,
+    /// a network-path reference: relative, yet it replaces the authority
+    NetworkPath,
 }
 
-const CHANGES: [Change; 9] = [
+const CHANGES: [Change; 10] = [
     Change::SamePath,
     Change::OtherPath,
     Change::OtherHost,
@@ -631,6 +661,7 @@ const CHANGES: [Change; 9] = [
     Change::Port443,
     Change::WithUserinfo,
     Change::WithFragment,
+    Change::NetworkPath,
 ];
 
 #[derive(Clone, Debug, Serialize, Deserialize)]
@@ -668,6 +699,7 @@ fn location_for(ch: Change) -> &'static str {
         Change::Port443 => "http://shop.test:443/s",
         Change::WithUserinfo => "http://usr:pw@cred.test/c",
         Change::WithFragment => "/frag?y=2#sec",
+        Change::NetworkPath => "//np.test:8082/n?w=1",
     }
 }
 
@@ -733,7 +765,8 @@ fn run10(c: &Case10) -> Vec<(String, String)> {
             BodyK::Multipart => {
                 let form = attohttpc::MultipartBuilder::new()
                     .with_text("field", "value")
-                    .with_file(attohttpc::MultipartFile::new("f", b"file-data"))
+                    .with_file(attohttpc::MultipartFile::new("f", b"file-data").with_type("image/png").unwrap().with_filename("p.png"))
+                    .with_file(attohttpc::MultipartFile::new("g", b"second file"))
                     .build()
                     .unwrap();
                 rb.body(form).send()
@@ -911,7 +944,7 @@ pub fn c10(ctx: &Ctx) -> Report {
     rep.set("chain_length_bound", max_len as u64);
     rep.set(
         "rule",
-        format!("full product: {} body kinds x {{POST, PUT}} x {{no proxy, http proxy with a no_proxy entry}} x every chain of 1..{} hops over 9 hop changes (same URL, other path, other host, other port, host bypassing the proxy, back to start, an http URL on port 443, a URL with credentials, a reference with a fragment) x statuses (all five uniformly, two mixed patterns); every hop's bytes are parsed back as one well-formed request; each case is a distinct chain", BODYKS.len(), max_len),
+        format!("full product: {} body kinds x {{POST, PUT}} x {{no proxy, http proxy with a no_proxy entry}} x every chain of 1..{} hops over 10 hop changes (a network-path reference, same URL, other path, other host, other port, host bypassing the proxy, back to start, an http URL on port 443, a URL with credentials, a reference with a fragment) x statuses (all five uniformly, two mixed patterns); every hop's bytes are parsed back as one well-formed request; each case is a distinct chain", BODYKS.len(), max_len),
     );
     rep.assume("plain-http hops through a proxy are checked for connection target and absolute-form target; their Host value is not constrained by the property");
     rep.assume("http->https hops are exercised by the TLS lab part of C08/C12, not here");
